@@ -608,7 +608,58 @@ def d_borrow(P, f, s):
     return "D-BORROW: no conflicting guard of RefCell<%s> is alive in this function here (callers are covered by BORROW-OVERLAP)" % D.short_ty(ct)
 
 
-RULES = [d_usize, d_arity, d_len, d_constre, d_lock, d_sub_guard, d_frame, d_valstack, d_peek, d_dispatch, d_borrow]
+# ------------------------------------------------------------------ D-SLICEORDER (source slices by AST positions)
+def _offset_desc(f, op):
+    d = PN.describe_operand(f, op)
+    if d.endswith(".start_offset") or d.endswith(".end_offset"):
+        return d
+    return None
+
+
+def _le_guarded(f, bb, a, b):
+    """a <= b holds at bb by a dominating comparison on the same described operands."""
+    for sw in D.bool_switches(f):
+        r = sw["root"]
+        if r[0] != "rv" or r[3]["rv"]["k"] != "binop":
+            continue
+        rv = r[3]["rv"]
+        x, y = PN.describe_operand(f, rv["a"]), PN.describe_operand(f, rv["b"])
+        op = rv["op"]
+        edge = None
+        if (x, y) == (a, b):
+            edge = {"Le": "true", "Lt": "true", "Gt": "false", "Eq": "true"}.get(op)
+        elif (x, y) == (b, a):
+            edge = {"Ge": "true", "Gt": "true", "Lt": "false", "Eq": "true"}.get(op)
+        if edge and sw[edge] is not None and bb in D.edge_dominated(f, sw["bb"], sw[edge]):
+            return True
+    return False
+
+
+def d_slice_order(P, f, s):
+    """`&src[a..b]` with a, b offsets of syntax-tree positions: in order either because both come from one
+    Position (POS-INVARIANT: start <= end) or because a dominating comparison says so; `..b` and `a..` need no
+    order. Bounds and char boundaries rest on POS-INVARIANT (offsets are token boundaries of the sliced text)."""
+    if s.kind != "call:str::index" or len(s.term["args"]) < 2:
+        return None
+    r = f.root_of(s.term["args"][1], through_named=True)
+    if r[0] != "rv" or r[3]["rv"]["k"] != "agg" or not str(r[3]["rv"].get("adt", "")).startswith("std::ops::Range"):
+        return None
+    rv = r[3]["rv"]
+    descs = [_offset_desc(f, o) for o in rv["ops"]]
+    if any(d is None for d in descs):
+        return None
+    if rv["variant"] in ("RangeTo", "RangeFrom"):
+        return "D-SLICEORDER: open-ended slice at the position offset %s (POS-INVARIANT: token boundary within the sliced text)" % descs[0]
+    if rv["variant"] == "Range":
+        a, b = descs
+        if a.rsplit(".", 1)[0] == b.rsplit(".", 1)[0] and a.endswith(".start_offset") and b.endswith(".end_offset"):
+            return "D-SLICEORDER: both bounds are the start/end of one Position %s (POS-INVARIANT: start <= end)" % a.rsplit(".", 1)[0]
+        if _le_guarded(f, s.bb, a, b):
+            return "D-SLICEORDER: %s <= %s by a dominating comparison (bounds within the text by POS-INVARIANT)" % (a, b)
+    return None
+
+
+RULES = [d_usize, d_arity, d_len, d_constre, d_lock, d_sub_guard, d_frame, d_valstack, d_peek, d_dispatch, d_borrow, d_slice_order]
 
 
 # ------------------------------------------------------------------ the PANIC-INV rule
@@ -697,3 +748,69 @@ def run(ctx, res, layers, floor_fns, floor_sites, extra_roots=(), label="PANIC-I
     for f, s in inv[:0]:
         pass
     return reach, inv
+
+
+# ------------------------------------------------------------------ VALSTACK-WRITERS
+_MUTATORS = ("::push", "::pop", "::clear", "::truncate", "::insert", "::remove", "::drain", "::append", "::extend",
+             "::retain", "::swap_remove", "::split_off", "::resize", "::dedup", "::set_len", "::extend_from_slice")
+
+
+def valstack_writers(P, res):
+    """who-may-write rule for the two per-frame stacks the D-VALSTACK class relies on."""
+    tbl = json.load(open(os.path.join(VERIF, "tables", "valstack_writers.json")))["writers"]
+    found = {}
+    for f in P.funcs.values():
+        for bi, t in f.calls():
+            if not t["args"]:
+                continue
+            n = PN.norm_path(M.callee_name(t) or "")
+            hits = []
+            for i, a in enumerate(t["args"]):
+                r = f.root_of(a, through_named=True)
+                if r[0] != "place":
+                    continue
+                fp = f.field_path(r[1])
+                if fp and fp[-1] in ("exprs_to_eval", "evalled_values"):
+                    hits.append((i, fp[-1]))
+            if not hits:
+                continue
+            for i, fld in hits:
+                mut = (i == 0 and n.endswith(_MUTATORS)) or "::mem::" in n or (i > 0 and "&mut" in ((t.get("argtys") or [""] * 9)[i]))
+                if mut:
+                    found.setdefault(f.path, []).append((fld, n.split("::")[-1], f.loc(t.get("fn_span"))))
+    n = 0
+    for p, ws in sorted(found.items()):
+        base = p.split("::{closure")[0]
+        n += len(ws)
+        if base in tbl:
+            res.ok("VALSTACK-WRITERS", "%s: %s" % (p, sorted({"%s.%s" % (a, b) for a, b, _ in ws})))
+        else:
+            res.bad("VALSTACK-WRITERS", "%s # writes # %s" % (p, sorted({"%s.%s" % (a, b) for a, b, _ in ws})),
+                    "`%s` mutates the evaluator's %s directly (%s); the value-stack discipline that every "
+                    "`pop_value().expect(..)` relies on is only argued for the reviewed writers" % (p, ws[0][0], ws[0][2]), ws[0][2])
+    res.floor("VALSTACK-WRITERS", "mutating accesses to exprs_to_eval / evalled_values", n, 20)
+    # SKIP-BALANCE
+    f = P.funcs.get("json_session::handle_run_request")
+    if f is None:
+        raise M.MissingAnchor("json_session::handle_run_request")
+    pops = [bi for bi, t in f.calls() if (M.callee_name(t) or "").endswith("::pop") and t["args"] and
+            f.field_path(f.root_of(t["args"][0], through_named=True)[1])[-1:] == ["exprs_to_eval"]
+            if f.root_of(t["args"][0], through_named=True)[0] == "place"]
+    pushes = [bi for bi, t in f.calls() if (M.callee_name(t) or "").endswith("::push") and t["args"] and
+              f.root_of(t["args"][0], through_named=True)[0] == "place" and
+              f.field_path(f.root_of(t["args"][0], through_named=True)[1])[-1:] == ["evalled_values"]]
+    used_sw = [(sb, ft, tt) for (sb, ft, tt) in D.field_switches(f, "value_is_used")]
+    for pb in pops:
+        ok = False
+        for (sb, ft, tt) in used_sw:
+            if f.dominates(pb, sb) and tt is not None and any(x in D.edge_dominated(f, sb, tt) for x in pushes):
+                # and evaluation resumes only after the switch
+                ok = True
+        if ok:
+            res.ok("SKIP-BALANCE", "handle_run_request: the skipped entry's value is supplied when value_is_used")
+        else:
+            res.bad("SKIP-BALANCE", "json_session::handle_run_request # skip-without-value",
+                    "`:skip` drops a pending expression without pushing a value for the expression that was waiting for it: "
+                    "skipping the arguments of a call makes the call pop an empty value stack and the eval thread panics",
+                    f.loc(f.blocks[pb]["term"].get("fn_span")))
+    res.floor("SKIP-BALANCE", "exprs_to_eval.pop() in handle_run_request", len(pops), 1)
